@@ -85,7 +85,9 @@ def dec_expiry(sx):
         t = {unhex(kv[0]): d(kv[1]) for kv in sx[1:]}
         return dictable(t) if t else dictable()
     return d(sx)
-KUNIV = [1, 2, 3, 4, 'x', 'y', None, 2.0, 5.0, D(2020, 1, 1)]
+# True / False / 0 (review 5 w2 F1): a bool key beside a number - python orders True as 1, cmp ranks the bools below every number; the join walks
+# its sorted key lists with cmp (fix C20-W2F1: sort no longer takes the native path there)
+KUNIV = [1, 2, 3, 4, 'x', 'y', None, 2.0, 5.0, D(2020, 1, 1), True, False, 0]
 JUNIV = ['u', 'v', 1]
 VALS = [0, 1, 2, 7, 'p', 'q', None, 0.5, 2.5]
 # (not `data` / `expiry`: reserved slots - a parameter of f of that name receives the previous value / the expiry AND is outer-joined
@@ -530,7 +532,7 @@ def laws(rng, tier, ctx):
             keep = ok_data and ex is not None and ex < today and not (if_none and old is None)
             # outside the quantifier (expiry assigned to a key that was not previously computed): not pinned, see ASSUMPTIONS
             free = 'data' in inputs and not ok_data and ex is not None and ex < today and not if_none
-            rows[k] = (tuple(vals), keep, old, free)
+            rows[tuple(ckey2(x) for x in k)] = (tuple(vals), keep, old, free)     # by the canonical key: python's dict would take (False,) for (0,)
         if not K:
             if not (res is None or ('data' in inputs and res is inputs['data'])):
                 yield Finding('violation', case, 'no key is present in every table input, yet the call returned %r' % (res,))
@@ -540,10 +542,10 @@ def laws(rng, tier, ctx):
         if not isinstance(res, dictable):
             yield Finding('violation', case, 'expected %d rows, got %r' % (len(K), res))
             continue
-        freek = set(tuple(ckey2(x) for x in k) for k, r in rows.items() if r[3])
+        freek = set(k for k, r in rows.items() if r[3])
         got = Counter((tuple(ckey2(res[c][i]) for c in on), canon_any(res['data'][i])) for i in range(len(res))
                       if tuple(ckey2(res[c][i]) for c in on) not in freek)
-        want = Counter((tuple(ckey2(x) for x in k), canon_any(old if keep else ('f',) + vals)) for k, (vals, keep, old, free) in rows.items() if not free)
+        want = Counter((k, canon_any(old if keep else ('f',) + vals)) for k, (vals, keep, old, free) in rows.items() if not free)
         if len(res) != len(rows):
             yield Finding('violation', case, '%d rows, expected one per key: %d' % (len(res), len(rows)))
             continue
